@@ -52,6 +52,27 @@ def dense_system(g):
     return H, b, off
 
 
+class _View(object):
+    """the graph's own vertices with shallow copies of its edges bound to them BY ID -- an evaluation of the state the
+    graph holds that does not go through whatever Vertex objects the graph's edges happen to reference"""
+
+    def __init__(self, vertices, edges):
+        self._vertices, self._edges = vertices, edges
+
+    def calc_chi2(self):
+        return float(sum(e.calc_chi2() for e in self._edges))
+
+
+def _independent_view(g):
+    byid = {v.id: v for v in g._vertices}
+    es = []
+    for e in g._edges:
+        e2 = copy.copy(e)
+        e2.vertices = [byid[i] for i in e2.vertex_ids]
+        es.append(e2)
+    return _View(g._vertices, es)
+
+
 def poses_close(a, b, atol):
     a, b = np.asarray(a, dtype=np.float64), np.asarray(b, dtype=np.float64)
     if len(a) == 7 and np.dot(a[3:], b[3:]) < 0:
@@ -667,13 +688,29 @@ def local_convergence(seed, n, scale=1.0):
         pert = rng.uniform(0, C05_BOUNDS['pert_t'] * scale)
         g, truth = oe.build_graph(rng, kind, nv=nv, landmarks=True, noise=max(noise, 1e-12), pert=pert, info_cross=True)
         tol = 10 ** rng.uniform(-10, -3)
-        c0 = g.calc_chi2()
+        reuse = rng.random() < 0.25
+        if reuse:
+            # ordinary usage: the same edge objects first served a graph over the ground-truth vertices (e.g. to look
+            # at its chi2), then the graph that is optimized is built from them and the perturbed vertices
+            tv = copy.deepcopy(list(g._vertices))
+            for k, v in enumerate(tv):
+                if k < len(truth):
+                    v.pose = copy.deepcopy(truth[k])
+            fresh = []
+            for e in g._edges:      # edges as the user constructs them: vertex ids only, no Vertex objects yet
+                e2 = copy.copy(e)
+                e2.vertices = None
+                fresh.append(e2)
+            Graph(fresh, tv).calc_chi2()
+            g = Graph(fresh, list(g._vertices))
+        c0 = _independent_view(g).calc_chi2()
         try:
             res = g.optimize(tol=tol, max_iter=50, verbose=False)
         except Exception as ex:  # noqa
             fails.append({'law': 'optimize raised %r' % (ex,), 'seed': seed, 'case': i, 'edge': 'graph'})
             continue
         evals += 1
+        g = _independent_view(g)
         c1 = g.calc_chi2()
         if not c1 <= c0 * (1 + 1e-12) + 1e-18:
             fails.append({'law': 'final chi2 %r exceeds initial chi2 %r' % (c1, c0), 'seed': seed, 'case': i, 'kind': kind, 'edge': 'graph'})
